@@ -37,6 +37,16 @@ pub struct InputTweak {
     pub gas_frac: u16,
 }
 
+/// F3e: the inspector skips a frame's execution: it sets the instruction result in
+/// `initialize_interp` (documented: "the execution of the interpreter is skipped") of the
+/// inner frame with index `hook_no`.
+#[derive(Clone, Debug, Default, Serialize, Deserialize, PartialEq)]
+pub struct SkipFrame {
+    pub hook_no: u64,
+    /// "stop" | "revert" | "halt"
+    pub result: String,
+}
+
 /// F3b: the inspector ends the running frame itself by setting the instruction result in
 /// `step_end` (documented as allowed) after the `at_step`-th instruction of the transaction,
 /// if that instruction completed normally.
@@ -267,6 +277,7 @@ pub struct Monitor {
     pub short_circuits: Vec<ShortCircuit>,
     pub force_halt: Option<ForceHalt>,
     pub input_tweak: Option<InputTweak>,
+    pub skip_frame: Option<SkipFrame>,
     tx_steps: u64,
     pub check_frame_snapshots: bool,
     pub check_access: bool,
@@ -355,6 +366,7 @@ impl Monitor {
         self.short_circuits = short_circuits;
         self.force_halt = None;
         self.input_tweak = None;
+        self.skip_frame = None;
         self.tx_steps = 0;
         self.top_delegate_checked = false;
         self.top_gas = None;
@@ -688,8 +700,20 @@ fn total_journal_len(js: &JournaledState) -> usize {
 }
 
 impl<DB: Database> Inspector<DB> for Monitor {
-    fn initialize_interp(&mut self, _interp: &mut Interpreter, _context: &mut EvmContext<DB>) {
+    fn initialize_interp(&mut self, interp: &mut Interpreter, _context: &mut EvmContext<DB>) {
         self.event(20);
+        // ---- F3e: skip the execution of this frame
+        if let Some(sk) = &self.skip_frame {
+            if self.hook_no > 1 && sk.hook_no + 1 == self.hook_no {
+                interp.instruction_result = match sk.result.as_str() {
+                    "stop" if interp.is_eof_init => InstructionResult::Revert,
+                    "stop" => InstructionResult::Stop,
+                    "revert" => InstructionResult::Revert,
+                    _ => InstructionResult::OutOfGas,
+                };
+                self.inc("fault.F3_frame_skipped_in_initialize_interp");
+            }
+        }
         match self.frames.last_mut() {
             Some(f) => {
                 if f.started {
